@@ -58,7 +58,9 @@ HasSuffixOp(T) == CASE T.op \in {"LIT","WILD","REGEXP"} -> FALSE
 C15(c) ==
   LET bad == {i \in DOMAIN c.runs : ~RunOk(c.tree, c.runs[i])} IN
      (IF bad = {} THEN <<>> ELSE <<Fail(c, "Render does not fold the tree with the supplied functions (run " \o ToString(CHOOSE i \in bad : TRUE) \o ")")>>)
-  \o (IF HasSuffixOp(c.tree) => (c.obs.sql.out = "err" /\ c.obs.sqlp.out = "err" /\ c.obs.sql.empty /\ c.obs.sqlp.empty) THEN <<>>
+  \* "contains a fuzzy or boost operator anywhere": in the returned tree, or as a ~ / ^ token of the query text (a parser that
+  \* drops the operator on the way must not make the query renderable)
+  \o (IF (HasSuffixOp(c.tree) \/ c.suffix_tok) => (c.obs.sql.out = "err" /\ c.obs.sqlp.out = "err" /\ c.obs.sql.empty /\ c.obs.sqlp.empty) THEN <<>>
       ELSE <<Fail(c, "ToPostgres / ToParameterizedPostgres rendered a query with a fuzzy or boost operator")>>)
 Judge(c) == C15(c)
 
